@@ -58,7 +58,7 @@ CLAIMED = {
          "Tier L: order inside a multi-request is the hand-over order to the (simulated) region client; the real multi assembly is checked by C02/C05.", "DESIGN.md §4 C12"),
  "C13": ("model_checking",
          "stateless model checking with a freeze-the-world oracle on a virtual clock: every wait state x entry point x cancel/deadline x instant x schedules up to a deviation bound",
-         "The client is scripted into each wait state (ZooKeeper silent, meta silent, probe unanswered, retry back-off, server silent after the request, re-establishment with meta silent, lookup back-off; plus the region client's busy send queue on tier R); through get, put, batch with shared context, batch with one call's own context, and scanner; the context is cancelled (or its virtual deadline expires) at 0 / 20 ms / 3 s / 100 s and from that instant the environment answers nothing. Oracle: the API call returns with a context error no later than 1 s of virtual time afterwards; a batch returns with the affected call marked failed and the others untouched. The context is additionally cancelled as an interrupt at every scheduling step of the call (first 120 / 250 client steps) in each wait state and on a healthy cluster, for every entry point, with <=1 further deviation.",
+         "The client is scripted into each wait state (ZooKeeper silent, meta silent, probe unanswered, retry back-off, server silent after the request, re-establishment with meta silent, lookup back-off; plus the region client's busy send queue on tier R); through get, put, batch with shared context, batch with one call's own context, and scanner; the context is cancelled (or its virtual deadline expires) at 0 / 20 ms / 3 s / 100 s and from that instant the environment answers nothing. Oracle: the API call returns with a context error no later than 1 s of virtual time afterwards; a batch returns with the affected call marked failed and the others untouched. The context is additionally cancelled as an interrupt at every scheduling step of the call (first 120 / 160 client steps) in each wait state and on a healthy cluster, for every entry point, with <=1 further deviation.",
          "Virtual time; tier L for all states but the send queue; deviation bound 1 (2 thorough).", "DESIGN.md §4 C13"),
  "C17": ("model_checking",
          "stateless model checking on a virtual clock: persistent-failure scripts x entry points; attempt times stamped by the simulated servers against the literal back-off table; early timer firing as counted deviations; step horizon = hot loop",
